@@ -99,3 +99,18 @@ Theorem persist_pattern_producer_refuted :
   map (fun o => match o with (x, r, l, _, _) => (x, r, l) end) (run_phist persist_pattern_history) =
   [(1, [(1, ocode OFail); (3, ocode OSkipPrevFailed)], []); (1, [(1, ocode OFail); (3, ocode OSkipPrevFailed)], [])].
 Proof. vm_compute. reflexivity. Qed.
+
+(* F31 (C04): task 1 (try_first) writes g7 into the directory of pattern 9 and raises; the generator over
+   pattern 9 then creates a task for g7 - created after the failure, it carries no marker and is
+   executed (code 0) on the product of the failed task *)
+Definition failing_writer : ptask :=
+  mkPT (mkTask 1 1 [101] [10907] [] None false [] false 1%Z [] []) [] [] false false.
+Definition generator9 : ptask :=
+  mkPT (mkTask 4 1 [] [] [] None false [] false 0%Z [[116; 97; 115; 107; 95; 116; 52; 95]] []) [9] [] true false.
+Definition late_child_history : list phop :=
+  [PSet 101 5; PSet 10900 7; PBuild cfg0 [failing_writer; generator9] [(1, RaiseAfter)] [1; 4; 20900; 20907]].
+
+Theorem late_generated_task_runs_below_failure_refuted :
+  map reports_of (run_phist late_child_history) =
+  [[(1, ocode OFail); (4, ocode OSuccess); (20900, ocode OSuccess); (20907, ocode OSuccess)]].
+Proof. vm_compute. reflexivity. Qed.
